@@ -303,7 +303,27 @@ def init_stages(ctx, init):
     return stages
 
 
+def kind_checks(make_config):
+    """`if not issubclass(<slot>_type, adapters.<Base>): raise …` inside _make_config → [(slot, Base)] (none today)"""
+    slots = {'hasher_type': 'hashing', 'chunker_type': 'chunking', 'cipher_type': 'cipher'}
+    out = []
+    for n in ast.walk(make_config):
+        if isinstance(n, ast.Call) and ast.unparse(n.func) == 'issubclass':
+            ok = False
+            for st in ast.walk(make_config):
+                if (isinstance(st, ast.If) and isinstance(st.test, ast.UnaryOp) and isinstance(st.test.op, ast.Not) and st.test.operand is n
+                        and len(st.body) == 1 and isinstance(st.body[0], ast.Raise) and not st.orelse):
+                    var, base = ast.unparse(n.args[0]), ast.unparse(n.args[1])
+                    if var in slots and base.startswith('adapters.') and base[len('adapters.'):] in ABSTRACT:
+                        out.append((slots[var], base[len('adapters.'):]))
+                        ok = True
+            if not ok:
+                raise NotRecognised(f'issubclass check of unknown shape in _make_config: {ast.unparse(n)}')
+    return out
+
+
 FALLBACK = [
+    'opaque kindChecks : List (String × String)',
     'opaque adapterTable : List AdapterRow',
     'opaque initSchema : List (String × List String)',
     'opaque initEncryptionSchema : List (String × List String)',
@@ -374,6 +394,7 @@ def body(ctx, emit):
     if any(not isinstance(defaults.get(k), str) for k in need):
         raise NotRecognised('DEFAULT_*_NAME constants')
     stages = init_stages(ctx, init)
+    kind_chk = kind_checks(ctx.find_func(rtree, 'Repository', '_make_config'))
     uploads = False
     for f in (add_key, add_key_inner):
         for n in ast.walk(f):
@@ -399,4 +420,5 @@ def body(ctx, emit):
                     ('DEFAULT_MAC_NAME', 'defaultMac'), ('DEFAULT_USER_KDF_NAME', 'defaultUserKdf'), ('DEFAULT_SHARED_KDF_NAME', 'defaultSharedKdf')]:
         emit(f'def {lean} : String := {lean_str(defaults[k])}')
     emit('def initStages : List (InitStage × Bool) := [' + ', '.join(f'(.{k}, {"true" if e else "false"})' for k, e in stages) + ']')
+    emit('def kindChecks : List (String × String) := [' + ', '.join(f'({lean_str(a)}, {lean_str(b)})' for a, b in kind_chk) + ']')
     emit(f'def addKeyUploads : Bool := {"true" if uploads else "false"}')
